@@ -325,10 +325,15 @@ def _noop(_):
     return os.getpid()
 
 
+_WORKER_LOG = []        # (family name, shard, limit) of everything this worker process has executed so far, in order
+
+
 def _worker_shard(args):
     fam_idx, shard, tier, slot, limit = args
     fam = _FAMS[fam_idx]
     global _CUR
+    log_before = list(_WORKER_LOG)
+    _WORKER_LOG.append((fam.name, jsonable(shard), limit))
     _CUR = (_SHM, slot) if _SHM is not None else None
     if not getattr(fam, '_setup_done', False):
         fam.setup()
@@ -357,6 +362,10 @@ def _worker_shard(args):
         if v is not None:
             nviol += 1
             if len(viols) < 40:
+                if len(viols) < 3 and not getattr(fam, 'fresh', False):
+                    # enough to re-create the state of this process at the moment of the failure: what it executed before,
+                    # and the position of the case in the shard (used only if the case passes when run on its own)
+                    v = dict(v, worker_history=log_before, shard=jsonable(shard), index=ncases - 1, tier=tier)
                 viols.append(v)
         if first is None:
             first = short(case)
@@ -642,9 +651,19 @@ class Run:
                 break
             d = os.path.join(OUT, 'replays', self.prop)
             os.makedirs(d, exist_ok=True)
-            h = hashlib.sha256(json.dumps(v, sort_keys=True).encode()).hexdigest()[:12]
-            p = os.path.join(d, '%s-%s.json' % (v['family'].replace('/', '_'), h))
             rec = dict(v)
+            if 'worker_history' in rec:
+                # does the case fail on its own (in a child of this process, which has executed no case)?  If it does, the
+                # record is the case; if not, the violation depends on what the worker executed before it: the record keeps
+                # that history and `--replay` re-executes it
+                if self._fails_alone(rec):
+                    for k in ('worker_history', 'shard', 'index', 'tier'):
+                        rec.pop(k, None)
+                else:
+                    rec['history_dependent'] = True
+                    rec['msg'] = rec['msg'] + ' [passes when executed alone: depends on the calls made before it in the same process]'
+            h = hashlib.sha256(json.dumps({k: rec[k] for k in ('family', 'case', 'msg')}, sort_keys=True).encode()).hexdigest()[:12]
+            p = os.path.join(d, '%s-%s.json' % (v['family'].replace('/', '_'), h))
             rec['property'] = self.prop
             with open(p, 'w') as f:
                 json.dump(rec, f, indent=1, sort_keys=True)
@@ -657,6 +676,34 @@ class Run:
         nunknown = len(unknown)
         self.write_evidence(nunknown, list(known_seen), evidence_extra)
         return 1 if nunknown else 0
+
+    def _fails_alone(self, rec):
+        fam = None
+        for f in _FAMS.values():
+            if f.name == rec['family']:
+                fam = f
+        if fam is None or not isinstance(fam, Family):
+            return True
+        r, w = os.pipe()
+        pid = os.fork()
+        if pid == 0:
+            code = 0
+            try:
+                os.close(r)
+                if not getattr(fam, '_setup_done', False):
+                    fam.setup()
+                try:
+                    res = run_case(fam, unjson(rec['case']))[2] is not None
+                except BaseException:  # noqa
+                    res = True
+                os.write(w, b'1' if res else b'0')
+            finally:
+                os._exit(code)
+        os.close(w)
+        data = os.read(r, 1)
+        os.close(r)
+        os.waitpid(pid, 0)
+        return data != b'0'
 
     def write_evidence(self, nunknown, known_seen, extra):
         ev = sum(s['evaluations'] for s in self.fam_stats.values())
